@@ -9,6 +9,7 @@ import (
 	"strconv"
 	"strings"
 	"sync"
+	"sync/atomic"
 	"time"
 
 	kv "github.com/XiXi-2024/xixi-kv"
@@ -25,7 +26,7 @@ func init() { core.Register(c08{}) }
 func (c08) ID() string    { return "C08" }
 func (c08) Level() string { return "exploration" }
 func (c08) Rule() string {
-	return "two case kinds. (sched) small programs - 2 clients x 1..2 ops or 3 clients x 1 op, op in {Put k, Delete k, Get k, and a 40 KiB Put that makes the active file rotate inside the other clients' windows} on one shared, pre-populated key, optionally plus a client running Merge - are executed under the pause scheduler: every client goroutine blocks at each engine hook point (put.afterAppend, get.afterIndex, delete.afterCheck, delete.afterAppend, merge.afterRotate, merge.record, merge.beforeMarker, merge.done) until granted; a depth-first search over the grant choices enumerates every ordering of the hook-delimited segments (a granted client that neither parks nor returns within 25 ms is taken to be blocked on an engine lock and another client is granted: this only steers exploration); each execution yields a history. (stress) 2..16 clients x 4..80 ops over 1..4 keys (at most ~64 operations per key and history: blind deletes make absent reads ambiguous, which is what drives the search cost), small DataFileSize, a concurrent Merge client in a third of the cases, stateless yield/sleep injection at the same hook points, -race build. Every history is recorded at the client boundary (call stamp before invoking, return stamp after the reply, one monotonic clock; every Put writes a unique value so a read identifies its write) and, completed by one final Get per key, is checked with porcupine v1.3.0 against a per-key register model (partitioned by key, 30 s timeout -> inconclusive); a returned error from Put/Delete/Get other than key-not-found is a violation; after quiescence the database is closed and reopened and every key must read what the final live Get read. Non-trivial: sched program with >=3 distinct realised interleavings, stress history in which >=2 clients' operations on one key overlapped in time; distinct = hash of the realised grant sequence resp. of the history All three sync strategies are used (Threshold with BytesPerSync 1..700, so that an fsync happens inside many of the writes)."
+	return "two case kinds. (sched) small programs - 2 clients x 1..2 ops or 3 clients x 1 op, op in {Put k, Delete k, Get k, and a 40 KiB Put that makes the active file rotate inside the other clients' windows} on one shared, pre-populated key, optionally plus a client running Merge - are executed under the pause scheduler: every client goroutine blocks at each engine hook point (put.afterAppend, get.afterIndex, delete.afterCheck, delete.afterAppend, merge.afterRotate, merge.record, merge.beforeMarker, merge.done) until granted; a depth-first search over the grant choices enumerates every ordering of the hook-delimited segments (a granted client that neither parks nor returns within 25 ms is taken to be blocked on an engine lock and another client is granted: this only steers exploration); each execution yields a history. (stress) 2..16 clients x 4..80 ops over 1..4 keys (at most ~64 operations per key and history: blind deletes make absent reads ambiguous, which is what drives the search cost), small DataFileSize, a concurrent Merge client in a third of the cases, stateless yield/sleep injection at the same hook points, -race build. Every history is recorded at the client boundary (call stamp before invoking, return stamp after the reply, one monotonic clock; every Put writes a unique value so a read identifies its write) and, completed by one final Get per key, is checked with porcupine v1.3.0 against a per-key register model (partitioned by key, 30 s timeout -> inconclusive); a returned error from Put/Delete/Get other than key-not-found is a violation; after quiescence the database is closed and reopened and every key must read what the final live Get read. Non-trivial: sched program with >=3 distinct realised interleavings, stress history in which >=2 clients' operations on one key overlapped in time; distinct = hash of the realised grant sequence resp. of the history All three sync strategies are used (Threshold with BytesPerSync 1..700, so that an fsync happens inside many of the writes). A further family of hot-key stress histories (320 quick / 4000 thorough): 2..4 writers alternate Put and Delete on one key of a pre-filled database while a client runs Merge again and again until they have finished."
 }
 func (c08) Assumptions() []string {
 	return []string{"porcupine v1.3.0 decides linearizability of the recorded history", "schedule control exists only at the hook points; pre-emptions inside a segment are reached by the stress part only",
@@ -40,6 +41,7 @@ type c08Case struct {
 	Kind    string
 	Prog    [][]string // sched: per client list of ops "put","del","get"
 	Merge   bool
+	Hot     bool // one hot key, writers only (Put/Delete), Merge running for the whole history over a pre-filled database
 	Cfg     core.Config
 	Clients int
 	NOps    int
@@ -108,6 +110,19 @@ func (c08) Cases(tier string, seed uint64) []core.Case {
 		}
 		out = append(out, core.Case{Index: len(out), ID: fmt.Sprintf("c08-stress-%04d", i), Seed: r.U64(),
 			Data: c08Case{Kind: "stress", Cfg: cfg, Clients: cl, NOps: nops, NKeys: nkeys, Merge: i%3 == 0}})
+	}
+	// hot-key histories: 2..4 writers alternate Put and Delete on ONE key while Merge runs again
+	// and again over a pre-filled database (windows that exist only while a merge is in
+	// progress and contain no hook point are only reachable by volume)
+	nh := 320
+	if tier == "thorough" {
+		nh = 4000
+	}
+	for i := 0; i < nh; i++ {
+		cfg := core.Config{IndexType: core.IndexTypes[i%3], ShardNum: []int{1, 4, 16}[r.Intn(3)], FileIO: byte((i / 3) % 2), DataFileSize: 64 << 10, Sync: byte(i % 3 % 2)}
+		cl := r.Range(2, 4)
+		out = append(out, core.Case{Index: len(out), ID: fmt.Sprintf("c08-hot-%04d", i), Seed: r.U64(),
+			Data: c08Case{Kind: "stress", Cfg: cfg, Clients: cl, NOps: 60 / cl, NKeys: 1, Merge: true, Hot: true}})
 	}
 	return out
 }
@@ -288,19 +303,32 @@ func (c08) Run(c core.Case, w *core.Worker) core.Result {
 	for i := 0; i < cc.NKeys; i++ {
 		keys = append(keys, fmt.Sprintf("k%d", i))
 	}
+	if cc.Hot {
+		for i := 0; i < 300; i++ {
+			db.Put([]byte(fmt.Sprintf("f%03d", i)), mkUniq("fill", 150))
+		}
+		res.Add("hot_key_histories", 1)
+	}
+	var writersDone atomic.Bool
 	base := time.Now()
 	clock := func() int64 { return time.Since(base).Nanoseconds() }
 	hs := make([][]hop, cc.Clients)
-	var wg sync.WaitGroup
+	var wg, wwg sync.WaitGroup
 	for ci := 0; ci < cc.Clients; ci++ {
+		wwg.Add(1)
 		wg.Add(1)
 		go func(ci int) {
 			defer wg.Done()
+			defer wwg.Done()
 			r := core.NewRng(core.Mix(c.Seed, uint64(ci)))
 			for i := 0; i < cc.NOps; i++ {
 				k := keys[r.Intn(len(keys))]
 				var o hop
-				switch x := r.Intn(10); {
+				x := r.Intn(10)
+				if cc.Hot {
+					x = []int{0, 4}[(ci+i)%2] // Put, Delete, Put, ... (the writers are out of phase)
+				}
+				switch {
 				case x < 4:
 					id := fmt.Sprintf("%d.%d", ci, i)
 					n := r.Range(4, 700)
@@ -337,8 +365,10 @@ func (c08) Run(c core.Case, w *core.Worker) core.Result {
 		res.Add("merge_clients", 1)
 		go func() {
 			defer wg.Done()
-			for i := 0; i < 2; i++ {
-				time.Sleep(time.Duration(200+i*300) * time.Microsecond)
+			for i := 0; i < 2 || (cc.Hot && !writersDone.Load() && i < 200); i++ {
+				if !cc.Hot {
+					time.Sleep(time.Duration(200+i*300) * time.Microsecond)
+				}
 				if err := db.Merge(); err != nil && !errors.Is(err, kv.ErrMergeOutputOverflow) {
 					// reported below through a marker op
 					hs[0] = append(hs[0], hop{client: 0, in: regIn{"get", "~merge", ""}, out: "error:merge:" + err.Error(), call: clock(), ret: clock()})
@@ -346,6 +376,7 @@ func (c08) Run(c core.Case, w *core.Worker) core.Result {
 			}
 		}()
 	}
+	go func() { wwg.Wait(); writersDone.Store(true) }()
 	wg.Wait()
 	var h []hop
 	for _, x := range hs {
